@@ -27,6 +27,79 @@ def run(ctx):
                "%s — the count comes from the input (%s) and is not bounded before the allocation: a few bytes can request "
                "gigabytes" % (s.detail, s.keyrole) if not ok else "bounded / not input-derived: %s" % s.detail,
                site=ctx.site_of_sitetuple(F, s.site), key="C17.alloc|%s|%s|%s" % (s.fn, s.op, s.keyrole))
+    # --- backed ---------------------------------------------------------------------------------
+    ctx.rule("C17.backed", "a reservation sized by a declared count (even a capped one) is backed before the next one is made: the loop "
+                           "that follows it reads exactly that count of elements (so a count not backed by data fails on its first "
+                           "missing element), or iterates data already in memory", floor=5)
+
+    def peel(t):
+        while isinstance(t, tuple) and t:
+            if t[0] in ('imin', 'imax'):
+                t = t[1] if t[1][0] != 'int' else t[2]
+            elif t[0] == 'cast':
+                t = t[1]
+            elif t[0] == 'tryfrom':
+                t = t[1]
+            elif t[0] == 'app' and len(t[2]) == 1:
+                t = t[2][0]             # a pure local helper of the count (the capacity helper): the count it was given
+            else:
+                break
+        return t
+
+    def in_memory(it):
+        base = it
+        while base is not None and base[0] in ('map', 'into_iter', 'enumerate', 'skip'):
+            base = base[1]
+        if base is None:
+            return False
+        if base[0] in ('iter', 'zip', 'windows', 'vecarr', 'lv', 'load', 'proj', 'param'):
+            return not (is_agg(base) and base[1].startswith('std::ops::Range'))
+        return is_agg(base) and base[1] in F.adts          # a local iterator struct over arrays already read (part iterator)
+
+    seen_b = {}
+
+    def scan(effs, fn_of):
+        effs = list(effs)
+        for i, e in enumerate(effs):
+            if e[0] == 'loop':
+                for bd in e[3]:
+                    scan(bd['eff'], fn_of)
+            if e[0] != 'alloc':
+                continue
+            n = e[2]
+            leaf = peel(n)
+            if leaf[0] == 'int' or leaf[0] == 'len':
+                continue                                # a constant, or the length of something already in memory
+            nxt = next((x for x in effs[i + 1:] if x[0] == 'loop'), None)
+            key = "C17.backed|%s|%s" % (e[4], taint.describe(leaf, 40) if hasattr(taint, 'describe') else absint.term_str(leaf)[:40])
+            if nxt is None:
+                later = [x for x in effs[i + 1:] if x[0] == 'alloc' and peel(x[2])[0] not in ('int', 'len')]
+                ok = not later
+                why = "nothing else is reserved or read after it on this path (the call returns)" if ok else \
+                    "another declared-count reservation follows before any element was read"
+            else:
+                it = nxt[2].get('range') or nxt[2].get('iter')
+                if is_agg(it) and it[1].startswith('std::ops::Range'):
+                    end = peel(agg_field(it, 'end'))
+                    ok = end == leaf
+                    why = "filled by a loop of exactly the reserved count" if ok else \
+                        "reserved for %s but filled by a loop of %s elements" % (absint.term_str(leaf)[:50], absint.term_str(end)[:50])
+                elif it is not None and in_memory(nxt[2].get('iter')):
+                    ok, why = True, "filled from data already in memory"
+                else:
+                    ok, why = False, "the loop after the reservation is not recognised (%s)" % absint.term_str(it)[:50]
+            prev = seen_b.get(key)
+            if prev is None or (prev[0] and not ok):
+                seen_b[key] = (ok, why, e[3], e[4])
+
+    for f_, pol in reader_roots(F):
+        try:
+            for p in absint.Interp(F, inline=pol).run(f_):
+                scan(p.eff, f_["def"])
+        except absint.Unanalysable:
+            continue
+    for key, (ok, why, site, fn_) in sorted(seen_b.items()):
+        ctx.ob("C17.backed", "%s :: %s" % (fn_.split("::")[-1], key.split("|")[-1]), ok, why, site=ctx.site_of_sitetuple(F, site), key=key)
     # --- grow -----------------------------------------------------------------------------------
     seen = set()
     for f, pol in reader_roots(F):
